@@ -456,7 +456,12 @@ class LiveMedia(MediaRequestBase):
                 seg_num, first, last)
             raise err
 
-        if seg_num < first or seg_num > last:
+        # a live request by $Time$ has been checked against the
+        # availability window by its time; the number derived from that
+        # time is zero based and only approximate when segment durations
+        # vary
+        by_live_time = (mode == 'live' and seg_time is not None)
+        if not by_live_time and (seg_num < first or seg_num > last):
             logging.info(
                 '%s: Request for fragment %d that is not available (%d -> %d)',
                 timing.now, seg_num, first, last)
